@@ -5,8 +5,24 @@ from checks import inputfam
 def run(ctx):
     q = ctx.tier == "quick"
     inputfam.run_input(ctx, "C11", "text", 40 if q else 400, exhaustive=not q, parts=16)
+    # live screen: a paste of several hundred three-byte characters read in 128-byte pieces (which end inside
+    # characters) by an application that polls slowly, on the fake Tty and on the real device Tty over a pty
+    for k, tty in enumerate(["fake", "pty"]):
+        tf = ctx.work + "/paste_%s.ndjson" % tty
+        s, _ = ctx.run_vh(["pipe", "--mode", "delivery", "--bulk", "--runs", 3 if q else 20, "--seed", ctx.seed + k, "--tty", tty, "--out", tf],
+                          timeout=3400)
+        if s.get("skipped"):
+            ctx.assumptions.append("no pseudo-terminal available here (%s): the device-Tty paste runs were skipped" % s["skipped"])
+            continue
+        r = ctx.validate_parallel("PipeTrace", tf, parts=4, expect_events=s.get("events"), timeout=3000)
+        mine = [d for d in r["devs"] if d["tag"] in ("C05.order", "C05.lost")]
+        for d in mine:
+            d["tag"] = "C11.paste_" + d["tag"].split(".")[1]
+            d["tty"] = tty
+        ctx.add_violations(mine, tf, label="paste-" + tty)
+        ctx.cov["paste_runs_" + tty] = s["histories"]
     ctx.assumptions += ["source strings are encoded with the x/text encoder of the charset (trusted), independent instance"]
     ctx.finish("exploration",
                rule="per stateless charset (24) and 3 terminals: strings of 1-4 encodable printable runes (every sampled rune at "
                     "least once), optionally inside paste brackets / followed by a focus report, decoded whole, under every "
-                    "single cut (short strings) and byte at a time; expected events are built in TLA+ from the source runes")
+                    "single cut (short strings) and byte at a time; expected events are built in TLA+ from the source runes; Init under 22 locale settings; long pastes through a live screen to a slow poller")
